@@ -4,6 +4,7 @@ import HdVerif.Model.VRGuards
 import HdVerif.Generated.T20vr
 import HdVerif.Generated.T20uid
 import HdVerif.Model.AliasTables
+import HdVerif.Generated.T20neg
 open Lean HdVerif HdVerif.Drv HdVerif.VR HdVerif.Gen HdVerif.Aliasing
 
 /-- strings travel as lists of code points -/
@@ -62,6 +63,12 @@ def handlers : List (String × Handler) := [
       let o := observable e copy
       Json.mkObj [("hasCopy", Json.bool e.hasCopy), ("same", Json.bool o.1), ("fresh", Json.bool o.2.1),
                   ("part", Json.bool o.2.2.1), ("writes0", Json.bool o.2.2.2.1), ("writesOther", Json.bool o.2.2.2.2)])).toArray))),
+  ("corpus", fun _ => do
+    pure (okJson (Json.mkObj [
+      ("writersAccepted", Json.arr ((negCorpus.filter fun e => neverWritesInputs e || !wellFormed e).map (fun e => Json.str e.name)).toArray),
+      ("twinsRejected", Json.arr ((twinCorpus.filter fun e => !constructorOk e).map (fun e => Json.str e.name)).toArray),
+      ("twinsRefused", Json.arr (twinRefused.map Json.str).toArray),
+      ("writers", Json.num negCorpus.length), ("refused", Json.num negRefused.length), ("twins", Json.num twinCorpus.length)]))),
   ("validUID", fun j => do pure (okJson (Json.bool (decide (validUID (← getChars j "s"))))))
 ]
 
